@@ -4,7 +4,7 @@ set -e
 cd "$(dirname "$0")"
 export CARGO_NET_OFFLINE=true
 mkdir -p .build evidence
-( cd mc && cargo build --release --offline )
+( cd mc && cargo build --release --offline --target-dir "$PWD/../.build" )
 if [ -f shim/hashseed.c ]; then
     gcc -O2 -shared -fPIC -o .build/libhashseed.so shim/hashseed.c -ldl
 fi
